@@ -97,7 +97,12 @@ impl MatrixId {
     /// a slash and they can be in any order.
     pub(crate) fn parse_with_type(s: &str) -> Result<Self, Error> {
         let s = if let Some(stripped) = s.strip_prefix('/') { stripped } else { s };
-        let s = if let Some(stripped) = s.strip_suffix('/') { stripped } else { s };
+        // A slash at the end is only superfluous if it doesn't separate a type from an identifier
+        // that consists only of its sigil.
+        let s = match s.strip_suffix('/') {
+            Some(stripped) if s.matches('/').count() % 2 == 0 => stripped,
+            _ => s,
+        };
         if s.is_empty() {
             return Err(MatrixIdError::NoIdentifier.into());
         }
